@@ -108,7 +108,7 @@ CORPUS_R = [   # (layout, site index, dot, name)  -- witnesses of the findings a
 
 
 def gen_res_cases(rng, tier):
-    n = 360 if tier == "quick" else 9000
+    n = 360 if tier == "quick" else 7000
     specs = list(CORPUS_R)
     lay_names = list(LAYOUTS)
     for _ in range(n):
